@@ -6,7 +6,7 @@
 // ===========================================================================================
 pub mod adapt {
     use vstd::prelude::*;
-    use crate::{ReadSpec, WriteSpec, BufReadSpec, ReadSpecImpl, BufReadSpecImpl};
+    use crate::{ReadSpec, WriteSpec, BufReadSpec};
     use crate::is_suffix;
     broadcast use {crate::ax::axiom_src_eq_refl, crate::ax::axiom_src_eq_trans};
 
@@ -15,7 +15,7 @@ pub mod adapt {
     // ---- std::io::Take ------------------------------------------------------------------------
     pub struct TakeShim<'a, R: std::io::Read> { pub inner: &'a mut R, pub limit: u64 }
 
-    impl<'a, R: std::io::Read> ReadSpecImpl for TakeShim<'a, R> {
+    impl<'a, R: std::io::Read> crate::ReadSpecImpl for TakeShim<'a, R> {
         open spec fn remaining(&self) -> Seq<u8> {
             (*self.inner).remaining().take(min_nat(self.limit as nat, (*self.inner).remaining().len()) as int)
         }
@@ -66,7 +66,7 @@ pub mod adapt {
         }
     }
 
-    impl<'a, R: std::io::BufRead> BufReadSpecImpl for TakeShim<'a, R> {
+    impl<'a, R: std::io::BufRead> crate::BufReadSpecImpl for TakeShim<'a, R> {
         open spec fn buffered(&self) -> nat { min_nat((*self.inner).buffered(), self.limit as nat) }
     }
     impl<'a, R: std::io::BufRead> std::io::BufRead for TakeShim<'a, R> {
@@ -98,7 +98,7 @@ pub mod adapt {
     }
 
     // ---- `&mut R` reads through to R ------------------------------------------------------------
-    impl<'a, R: std::io::Read> ReadSpecImpl for &'a mut R {
+    impl<'a, R: std::io::Read> crate::ReadSpecImpl for &'a mut R {
         open spec fn remaining(&self) -> Seq<u8> { (**self).remaining() }
         open spec fn reliable(&self) -> bool { (**self).reliable() }
         #[verifier::prophetic]
@@ -106,24 +106,91 @@ pub mod adapt {
             mut_ref_future(*self) == mut_ref_future(*o) && (**self).src_eq(&**o)
         }
     }
-    impl<'a, B: std::io::BufRead + ?Sized> BufReadSpecImpl for &'a mut B {
+    impl<'a, B: std::io::BufRead + ?Sized> crate::BufReadSpecImpl for &'a mut B {
         open spec fn buffered(&self) -> nat { (**self).buffered() }
     }
 
-    // ---- std::io::BufReader (still a stub: contracts of the trait are ASSUMED for it) ---------------
-    pub struct BufReaderShim<R: std::io::Read> { pub inner: R }
+    // ---- std::io::BufReader: reads ahead from `inner` into a private buffer ----------------------
+    // ghost view: the bytes still buffered followed by what `inner` will deliver.  How much is read
+    // ahead per refill is whatever `inner.read` returns for a CAP-byte request (any amount >= 1).
+    pub struct BufReaderShim<R: std::io::Read> { pub inner: R, pub buf: Vec<u8>, pub pos: usize }
+
     impl<R: std::io::Read> BufReaderShim<R> {
-        #[verifier::external_body]
-        pub fn new(inner: R) -> Self { BufReaderShim { inner } }
+        pub open spec fn pending(&self) -> Seq<u8> {
+            if self.pos <= self.buf@.len() { self.buf@.skip(self.pos as int) } else { Seq::<u8>::empty() }
+        }
+        pub fn new(inner: R) -> (r: Self)
+            ensures r.inner == inner, r.pending().len() == 0,
+        {
+            BufReaderShim { inner, buf: Vec::new(), pos: 0 }
+        }
+    }
+    impl<R: std::io::Read> crate::ReadSpecImpl for BufReaderShim<R> {
+        open spec fn remaining(&self) -> Seq<u8> { self.pending() + self.inner.remaining() }
+        open spec fn reliable(&self) -> bool { self.inner.reliable() }
+        #[verifier::prophetic]
+        open spec fn src_eq(&self, o: &Self) -> bool {
+            &&& self.inner.src_eq(&o.inner) && self.inner.reliable() == o.inner.reliable()
+            &&& is_suffix(self.pending() + self.inner.remaining(), o.pending() + o.inner.remaining())
+            &&& is_suffix(self.inner.remaining(), o.inner.remaining())
+        }
+    }
+    impl<R: std::io::Read> crate::BufReadSpecImpl for BufReaderShim<R> {
+        open spec fn buffered(&self) -> nat { self.pending().len() }
     }
     impl<R: std::io::Read> std::io::Read for BufReaderShim<R> {
+        // only reached through the (assumed) generic contracts of read_u8 / read_exact; kept unverified
         #[verifier::external_body]
         fn read(&mut self, buf: &mut [u8]) -> (r: std::io::Result<usize>) { unimplemented!() }
     }
     impl<R: std::io::Read> std::io::BufRead for BufReaderShim<R> {
-        #[verifier::external_body]
-        fn fill_buf(&mut self) -> (r: std::io::Result<&[u8]>) { unimplemented!() }
-        #[verifier::external_body]
-        fn consume(&mut self, amt: usize) { unimplemented!() }
+        fn fill_buf(&mut self) -> (r: std::io::Result<&[u8]>)
+        {
+            proof {
+                assert(self.remaining().skip(0) =~= self.remaining());
+                assert(self.inner.remaining().skip(0) =~= self.inner.remaining());
+            }
+            if self.pos >= self.buf.len() {
+                let ghost rem0 = self.inner.remaining();
+                let mut tmp: Vec<u8> = Vec::new();
+                tmp.resize(8192, 0u8);
+                let n = self.inner.read(tmp.as_mut_slice())?;
+                tmp.truncate(n);
+                self.buf = tmp;
+                self.pos = 0;
+                proof {
+                    assert(self.buf@ =~= rem0.take(n as int));
+                    assert(self.pending() =~= rem0.take(n as int));
+                    assert(self.pending() + self.inner.remaining() =~= rem0);
+                    assert(old(self).pending() + rem0 =~= rem0);
+                }
+            }
+            let res = &self.buf[self.pos..];
+            proof {
+                assert(res@ =~= self.pending());
+                assert(res@.is_prefix_of(self.remaining()));
+            }
+            Ok(res)
+        }
+        fn consume(&mut self, amt: usize)
+        {
+            let ghost p0 = self.pending();
+            let ghost r0 = self.remaining();
+            proof { assert(self.buf@.len() == self.buf.len()); }
+            self.pos = self.pos + amt;
+            proof {
+                assert(self.pending() =~= p0.skip(amt as int));
+                assert(self.remaining() =~= r0.skip(amt as int));
+                assert(self.inner.remaining().skip(0) =~= self.inner.remaining());
+            }
+        }
+    }
+
+    // ---- `&[u8]` as a reader (std: the slice shrinks as it is read) --------------------------------
+    impl<'a> crate::ReadSpecImpl for &'a [u8] {
+        open spec fn remaining(&self) -> Seq<u8> { (*self)@ }
+        open spec fn reliable(&self) -> bool { true }
+        #[verifier::prophetic]
+        open spec fn src_eq(&self, o: &Self) -> bool { is_suffix((*self)@, (*o)@) }
     }
 }
